@@ -271,7 +271,7 @@ class CPreProcessor:
         """Get next token"""
         token = self.files[-1].next_token()
         if token and expand:
-            while self.expand(token):
+            while token and self.expand(token):
                 token = self.next_token(expand=False)
 
         if self.verbose:
